@@ -9,7 +9,7 @@ WT=/tmp/mutrun/$ID
 OUT=/tmp/mutrun/out-$ID
 mkdir -p /tmp/mutrun "$OUT"
 git -C /repo worktree add -q --detach "$WT" HEAD || exit 3
-if ! git -C "$WT" apply "$PATCH"; then echo "PATCH DOES NOT APPLY"; git -C /repo worktree remove --force "$WT"; exit 3; fi
+if ! git -C "$WT" apply "$PATCH" 2>/dev/null && ! git -C "$WT" apply -C1 "$PATCH"; then echo "PATCH DOES NOT APPLY"; git -C /repo worktree remove --force "$WT"; exit 3; fi
 cd "$(dirname "$0")/.."
 for C in "$@"; do
   VERIF_REPO="$WT" VERIF_OUT="$OUT" VERIF_TIER="${TIER:-quick}" VERIF_SEED="${SEED:-0}" /venv/bin/python -m vf.cli "$C" > "$OUT/$C.log" 2>&1
